@@ -34,6 +34,9 @@ func hexCase(rng *Rng, n int) string {
 	return s
 }
 
+// hostileChunkLines is set by genRequest for requests of streams that are not claimed well-formed (after seed C02-m5).
+var hostileChunkLines bool
+
 // encodeChunked splits body into chunks of arbitrary sizes; trailers may follow.
 func encodeChunked(rng *Rng, body []byte, trailers [][2]string) []byte {
 	var b []byte
@@ -45,6 +48,11 @@ func encodeChunked(rng *Rng, body []byte, trailers [][2]string) []byte {
 		b = append(b, hexCase(rng, n)...)
 		if rng.Intn(8) == 0 {
 			b = append(b, ' ')
+		}
+		if hostileChunkLines && rng.Intn(5) == 0 {
+			// chunk extensions and other bytes between the size and its CRLF (hertz refuses them; what matters is that
+			// the verdict is the same for every segmentation) - only in streams that are not claimed well-formed
+			b = append(b, pick(rng, []string{";x", ";name=value", ";a=\"q\"", ";", "\t", " ;x", ";x "})...)
 		}
 		b = append(b, "\r\n"...)
 		b = append(b, body[:n]...)
@@ -126,7 +134,9 @@ func genRequest(rng *Rng, o genReqOpts) []byte {
 		for _, l := range genHeaderLines(rng, ho, "chunked") {
 			head = append(head, l...)
 		}
+		hostileChunkLines = !o.wellFormed
 		payload = encodeChunked(rng, body, trailers)
+		hostileChunkLines = false
 	}
 	for _, e := range extra {
 		head = append(head, e...)
@@ -246,18 +256,21 @@ func genSegCases(rng *Rng, nStreams int, maxLen int) {
 		}
 		h := hx(stream)
 		runOp([]string{"serve", flags, "0", end, h, "-"})
+		// every other delivery of the same bytes must give what the whole delivery gave (judged on the implementation's
+		// outputs alone: `seg:` lines carry the reference), besides being equal to the model's single answer
+		ref := safe(ops["serve"], []string{flags, "0", end, h, "-"})
 		for c := 1; c < len(stream); c++ {
-			runOp([]string{"serve", flags, "0", end, h, strconv.Itoa(c)})
+			runOpSeg([]string{"serve", flags, "0", end, h, strconv.Itoa(c)}, ref)
 		}
 		var all []string
 		for c := 1; c < len(stream); c++ {
 			all = append(all, strconv.Itoa(c))
 		}
 		if len(all) > 0 {
-			runOp([]string{"serve", flags, "0", end, h, strings.Join(all, ",")})
+			runOpSeg([]string{"serve", flags, "0", end, h, strings.Join(all, ",")}, ref)
 		}
 		for r := 0; r < 4; r++ {
-			runOp([]string{"serve", flags, "0", end, h, genCuts(rng, len(stream))})
+			runOpSeg([]string{"serve", flags, "0", end, h, genCuts(rng, len(stream))}, ref)
 		}
 	}
 }
@@ -325,13 +338,14 @@ func genRespSegCases(rng *Rng, n int) {
 		}
 		h := hx(s)
 		runOp([]string{"respread", "-", "0", end, h, "-"})
+		ref := safe(ops["respread"], []string{"-", "0", end, h, "-"})
 		var all []string
 		for c := 1; c < len(s); c++ {
-			runOp([]string{"respread", "-", "0", end, h, strconv.Itoa(c)})
+			runOpSeg([]string{"respread", "-", "0", end, h, strconv.Itoa(c)}, ref)
 			all = append(all, strconv.Itoa(c))
 		}
 		if len(all) > 0 {
-			runOp([]string{"respread", "-", "0", end, h, strings.Join(all, ",")})
+			runOpSeg([]string{"respread", "-", "0", end, h, strings.Join(all, ",")}, ref)
 		}
 	}
 }
